@@ -253,6 +253,20 @@ func c14Stream(r *hx.Rand, tier string, n int, w *bufio.Writer) map[string]int {
 			emit(l)
 		}
 	}
+	// one verifier object for a whole sequence of assertions (c14seq.go)
+	ns := n / 60
+	if ns < 2 {
+		ns = 2
+	}
+	c14SeqStream(r, tier, ns, w, &caseNo, stats, sy)
+	// the library's client helpers on their own: key forms, both families (c14seq.go)
+	c14MintStream(r, n/20, w, &caseNo, stats, sy)
+	// request objects at the real authorization endpoint of both routers (c14ro.go)
+	nb := n / 120
+	if nb < 2 {
+		nb = 2
+	}
+	c14ROEndpointStream(r, tier, nb, w, &caseNo, stats, sy)
 	// the endpoints that consume assertions, on multi-issuer providers (c14ep.go)
 	nh := n / 40
 	if nh < 1 {
